@@ -38,6 +38,24 @@ func typeLists(w *world, ids []int) (p, d, r []int) {
 // compare the real observable state with the specification's; caller holds mu.
 func (w *world) compare(o *Obs) *diff {
 	var stall *diff
+	// seen from the servers: how often each request arrived
+	for i, cs := range w.calls {
+		for s := 1; s <= w.cfg.N; s++ {
+			want := 0
+			if i < len(o.Sent) && s-1 < len(o.Sent[i]) {
+				want = o.Sent[i][s-1]
+			}
+			got := w.sent[skey{i + 1, s}]
+			switch {
+			case got > want && cs.t.kind() == "w":
+				return &diff{Class: "contra", What: fmt.Sprintf("the %s request of call %d reached the server of shard %d %d time(s), specification %d (a write whose outcome is unknown must not be sent again)", cs.t.Op, i+1, s, got, want)}
+			case got > want:
+				return &diff{Class: "diverged", What: fmt.Sprintf("the %s request of call %d reached shard %d %d time(s), specification %d", cs.t.Op, i+1, s, got, want)}
+			case got < want:
+				stall = &diff{Class: "stall", What: fmt.Sprintf("the %s request of call %d reached shard %d %d time(s), specification %d (retry not seen)", cs.t.Op, i+1, s, got, want)}
+			}
+		}
+	}
 	for s := 1; s <= w.cfg.N; s++ {
 		for _, k := range []string{"w", "r"} {
 			var spec []int
@@ -175,8 +193,9 @@ func replayOnce(base string, b *Behaviour, linger time.Duration, wait time.Durat
 			}
 		case "Timer":
 			// nothing to do: the next sync waits for the requests the expired timers release
-		case "Respond", "Fail":
-			if !w.answer(st.S, st.K, st.A == "Respond") {
+		case "Respond", "Fail", "Break":
+			mode := map[string]int{"Respond": ansOK, "Fail": ansFail, "Break": ansBreak}[st.A]
+			if !w.answer(st.S, st.K, mode, st.N) {
 				return res, fmt.Errorf("no request to answer at step %d", i)
 			}
 		case "SEmit", "SEnd":
